@@ -111,4 +111,83 @@ example : (NumKind.int .int8).convert (.fin 127 0) = some (.int .int8 127) ∧
     (NumKind.int .uint64).convert (.fin 1 63) = some (.int .uint64 (2 ^ 63)) ∧
     (NumKind.int .int64).convert (.fin 1 63) = none := by decide
 
+/-! ## The deferred function of `Run` cannot panic itself -/
+
+/-- what a Go function can panic with, as far as the deferred function of `Run` can tell apart -/
+inductive PanicValue where
+  | nilValue        -- `panic(nil)` with the go < 1.21 semantics: `recover()` returns nil
+  | plain           -- a value that is no error (a string, a number, a struct …)
+  | error           -- an error whose `Error()` returns (runtime errors, `fmt.Errorf` values, *PanicNilError …)
+  | errorPanics     -- an error whose `Error()` panics (a broken implementation)
+  | typedNilError   -- a nil pointer of a type whose `Error()` dereferences its receiver (`var e *myErr; panic(e)`)
+  deriving DecidableEq, Repr
+
+def PanicValue.all : List PanicValue := [.nilValue, .plain, .error, .errorPanics, .typedNilError]
+
+/-- how the deferred function turns the recovered value into the text of the error -/
+inductive Formatting where
+  | fmtV          -- `fmt.Errorf("Error: %v", r)`: the code. fmt calls `Error()` under a recover of its own
+                  -- (`catchPanic`: "<nil>" for a nil receiver, "%!v(PANIC=Error method: …)" otherwise)
+  | errorMethod   -- `r.(error).Error()` called by the deferred function itself (seeded change C19d-1)
+  deriving DecidableEq, Repr
+
+inductive HandlerOut where
+  | errAssigned     -- the named result `err` was assigned: `Run` returns `(nil, error)`
+  | nothing         -- `recover()` returned nil and nothing else is tested: `Run` returns `(nil, nil)`
+  | panics          -- the deferred function panicked itself: the panic leaves `Run`
+  deriving DecidableEq, Repr
+
+/-- `if r := recover(); r != nil || !finished { err = <text of r> }` for a `Run` that did not finish;
+    `flag` = the completion flag is tested (`Shape.nilPanicReported`) -/
+def handler (f : Formatting) (flag : Bool) : PanicValue → HandlerOut
+  | .nilValue => if flag then .errAssigned else .nothing          -- r == nil: only the flag notices
+  | .plain => .errAssigned
+  | .error => .errAssigned
+  | .errorPanics => match f with | .fmtV => .errAssigned | .errorMethod => .panics
+  | .typedNilError => match f with | .fmtV => .errAssigned | .errorMethod => .panics
+
+/-- the `BodyOut` a panic value amounts to in the model the driver runs -/
+def PanicValue.bodyOut : PanicValue → BodyOut
+  | .nilValue => .panicNil
+  | _ => .panic
+
+/-- what `Run` returns when its body panicked with `pv`, read off the handler -/
+def afterHandler (sh : Shape) (f : Formatting) (pv : PanicValue) : Outcome :=
+  if sh.recovers then
+    match handler f sh.nilPanicReported pv with
+    | .errAssigned => .done (.one .nil) (some .recovered)
+    | .nothing => .done (.one .nil) none
+    | .panics => .escaped
+  else .escaped
+
+/-- **The deferred function cannot panic itself** — for every kind of panic value, also a typed nil
+    error and an error whose `Error()` panics, because the text is produced by fmt's `%v` (which guards
+    the `Error()` call); with the completion flag it always assigns the error. About the MODEL of the
+    handler: that the source formats with `%v` and calls nothing else on the recovered value is not a
+    regenerated fact — it is tied by the differential run (panic values typed-nil / bad `Error()` in
+    synthetic and plugin functions; seeded change C19d-1 is caught there). fmt's guard is trusted (it
+    re-panics only if printing the PANIC VALUE of `Error()` panics again). -/
+theorem deferred_handler_cannot_panic (flag : Bool) (pv : PanicValue) :
+    handler .fmtV flag pv ≠ .panics ∧ handler .fmtV true pv = .errAssigned := by
+  cases pv <;> cases flag <;> simp [handler]
+
+/-- The handler model is the one behind the model the driver runs: what `finish` (the tail of `run`,
+    `reaching_runs_body`) returns for a panicking body is exactly what the handler with `%v` yields, for
+    every panic value, every shape and every signature. -/
+theorem finish_is_handler (sh : Shape) (sig : Sig) (pv : PanicValue) :
+    finish sh sig pv.bodyOut = afterHandler sh .fmtV pv := by
+  cases pv <;> cases hr : sh.recovers <;> cases hn : sh.nilPanicReported <;>
+    simp [finish, afterHandler, handler, PanicValue.bodyOut, hr, hn]
+
+/-- Hence: with the regenerated facts, a body panicking with ANY of the modelled panic values ends in
+    `(nil, error)` — never in an escaped panic, never in a silent NULL. -/
+theorem any_panic_value_is_error (sig : Sig) (pv : PanicValue) :
+    finish shape sig pv.bodyOut = .done (.one .nil) (some .recovered) := by
+  rw [finish_is_handler]
+  have h := (deferred_handler_cannot_panic true pv).2
+  simp [afterHandler, shape_recovers, shape_nil_panic_reported, h]
+
+/-- With `r.(error).Error()` called by the deferred function itself, a typed nil error escapes. -/
+example : afterHandler shape .errorMethod .typedNilError = .escaped := by decide
+
 end Ecal.Props.C19
